@@ -233,6 +233,9 @@ impl <'a, N: Num + NumCast + NumAssignOps + Copy> SparseBinnedCoverage<'a, N> {
     }
 
     pub fn get_chrom(&self, index: usize) -> Option<&str> {
+        if index >= self.len {
+            return None;
+        }
         match self.accu_size.binary_search(&index) {
             Ok(j) => {
                 if j < self.len {
@@ -252,6 +255,9 @@ impl <'a, N: Num + NumCast + NumAssignOps + Copy> SparseBinnedCoverage<'a, N> {
     }
 
     pub fn get_region(&self, index: usize) -> Option<GenomicRange> {
+        if index >= self.len {
+            return None;
+        }
         let region = match self.accu_size.binary_search(&index) {
             Ok(j) => {
                 if j < self.len {
